@@ -264,6 +264,10 @@ def oracle(req, impl):
     if op in ("text", "char", "item"):
         if d.get("rc") != "0":
             if op == "char" and t[2] != "1" and t[5] == "1":
+                text = unhexs(t[6]) or []
+                if 13 in text or W.cif2_disallowed(text):
+                    return None                       # outside C02's totality clause (may be refused once F-cr-altered /
+                                                      # F-disallowed-char-written are repaired)
                 return "write_char (CIF 2.0, text fields allowed) failed with code %s" % d.get("rc")
             return None
         col = int(t[3])
